@@ -6,6 +6,7 @@ import (
 	"bufio"
 	"flag"
 	"fmt"
+	"io"
 	"os"
 	"sort"
 	"strings"
@@ -113,3 +114,5 @@ func parseCSV(s string) []uint64 {
 	}
 	return r
 }
+
+func newBufWriter(w io.Writer) *bufio.Writer { return bufio.NewWriter(w) }
